@@ -138,9 +138,9 @@ PROPS["C05"] = dict(
     level="proof",
     runner="C05",
     model_files=["Base.v", "Loop.v"],
-    proof_files=["Loop_proofs.v"],
+    proof_files=["Loop_proofs.v", "Loop_errors.v"],
     check_files=["C05_check.v"],
-    theorems=["C05_fee_formula", "C05_converged_fixed_point", "C05_passes_bounded", "C05_round_cap_refuted"],
+    theorems=["C05_fee_formula", "C05_converged_fixed_point", "C05_passes_bounded", "C05_round_cap_refuted", "C05_failing_pass_fails_resolution", "C05_failing_pass_no_transaction"],
     partial=["convergence of the loop for the concrete CBOR size function is not a theorem (finding F05-1 is a counterexample); which inputs leave through the round cap is observed"],
     trusted_base=LOOP_TB,
     assumptions=["the pass function is deterministic in (compiler state, fee)"],
